@@ -187,6 +187,9 @@ func canonExpr(fi *FuncInfo, e ast.Expr, fset *token.FileSet) string {
 			if isParam[t.Obj] {
 				return mk("const", t.S)
 			}
+			if v, ok := t.Obj.(*types.Var); ok && (v.Kind() == types.ParamVar || v.Kind() == types.RecvVar) {
+				return mk("const", t.S) // parameter of an enclosing function literal
+			}
 			return mk("const", "_")
 		}
 		if len(t.A) == 0 {
